@@ -7,7 +7,7 @@ from .. import cases, monitors, oracles
 from . import _align_common as ac
 
 TITLE = "Gamma is 1 - observed/expected over the requested chance samples"
-DECIDING = ["M-GAMMA", "M-GAMMA-COUNT", "M-GAMMA-SAMPLE", "M-GAMMA-RECOMPUTE", "M-GAMMA-IDENTICAL", "M-GAMMA-SESSION"]
+DECIDING = ["M-GAMMA", "M-GAMMA-COUNT", "M-GAMMA-SAMPLE", "M-GAMMA-RECOMPUTE", "M-GAMMA-IDENTICAL", "M-GAMMA-SESSION", "M-GAMMA-CONCURRENT"]
 LEVEL = "exploration"
 RULE = ("seeded random small continua (2-4 annotators, labelled) x n_samples 1..40 x precision (none / numeric chosen "
         "so that N_required falls below, on and above n_samples / named levels when affordable) x sampler "
@@ -16,7 +16,9 @@ RULE = ("seeded random small continua (2-4 annotators, labelled) x n_samples 1..
         "checks observed disorder, number of chance alignments, draws == alignments kept, alignment i built on the "
         "i-th sample drawn (content), samples valid, each chance alignment recomputed in the "
         "same mode on its own sample, mean, gamma, gamma <= 1; plus continua of identical annotators (gamma == 1); plus sessions in which ONE sampler object and one "
-        "continuum object serve 2-3 computations with different ground-truth subsets, modes and sample counts. "
+        "continuum object serve 2-3 computations with different ground-truth subsets, modes and sample counts; two "
+        "default-sampler computations running concurrently in two user threads on disjoint continua; first batches of "
+        "257-520 samples with a precision level. "
         "non-trivial = every case (>= 1 sample); distinct by SHA-1 of the case")
 ASSUMPTIONS = [
     "N_required is recomputed in float64 from the first n_samples chance disorders; any count between the ceilings of "
@@ -33,7 +35,7 @@ ASSUMPTIONS = [
 
 
 def plan(tier, seed):
-    return ac.std_plan(tier, quick_budget=80, thorough_budget=800)
+    return ac.std_plan(tier, quick_budget=50, thorough_budget=800)
 
 
 def content(c):
@@ -249,7 +251,57 @@ def check_session(ctx, case):
             return
 
 
+def check_concurrent(ctx, case):
+    """Two gamma computations with the DEFAULT sampler running at the same time in two user threads, on continua with
+    disjoint annotators and categories: each must still be made of its own ground-truth annotators and categories."""
+    import threading
+    _, pool = ac.setup(ctx)
+    dissim = pool.get(case["dissim"])
+    conts = [cases.build_continuum(cs) for cs in case["continua"]]
+    results, errors = [None, None], [None, None]
+    barrier = threading.Barrier(2)
+
+    def work(i):
+        try:
+            barrier.wait(timeout=30)
+            results[i] = conts[i].compute_gamma(dissim, n_samples=case["n_samples"], precision_level=None)
+        except Exception as e:   # noqa
+            errors[i] = e
+    np.random.seed(case["np_seed"])
+    ts = [threading.Thread(target=work, args=(i,)) for i in range(2)]
+    [t.start() for t in ts]
+    [t.join() for t in ts]
+    ctx.count("M-GAMMA-CONCURRENT")
+    for i in range(2):
+        if errors[i] is not None:
+            ctx.fail(f"concurrent:compute_gamma-raises:{type(errors[i]).__name__}", {"message": str(errors[i])[:300]}, monitor="M-GAMMA")
+            continue
+        res = results[i]
+        own = sorted(case["continua"][i]["ann"].keys())
+        labels = set(cases.spec_labels(case["continua"][i]))
+        if len(res.chance_alignments) != case["n_samples"]:
+            ctx.fail("concurrent:wrong-number-of-chance-alignments", {"got": len(res.chance_alignments), "n_samples": case["n_samples"]},
+                     monitor="M-GAMMA-COUNT")
+        for k, al in enumerate(res.chance_alignments):
+            anns = sorted(al.continuum.annotators)
+            labs = {u.annotation for _, u in al.continuum}
+            if anns != own or not labs <= labels:
+                ctx.fail("concurrent:chance-sample-not-made-of-its-own-ground-truth", {"sample": k, "annotators": anns, "expected": own,
+                                                                                     "foreign_labels": sorted(map(str, labs - labels))},
+                         monitor="M-GAMMA-SAMPLE")
+                break
+            again = al.continuum.get_best_alignment(dissim)
+            if not oracles.close(float(al.disorder), float(again.disorder)):
+                ctx.fail("concurrent:chance-disorder-not-the-alignment-of-its-sample", {"sample": k}, monitor="M-GAMMA-RECOMPUTE")
+                break
+        mean = float(np.mean([float(a.disorder) for a in res.chance_alignments]))
+        if not oracles.close(float(res.expected_disorder), mean):
+            ctx.fail("concurrent:expected-disorder-not-the-mean", {}, monitor="M-GAMMA")
+
+
 def check_case(ctx, case):
+    if "continua" in case:
+        return check_concurrent(ctx, case)
     if "session" in case:
         return check_session(ctx, case)
     _, pool = ac.setup(ctx)
@@ -340,7 +392,28 @@ def run(ctx):
     rng = ctx.rng
     dspecs = cases.gen_pool_specs(rng, ctx.scale(8, 20), kinds=["combined", "combined", "positional", "absolute",
                                                                  "levenshtein", "precomputed"])
+    dspecs.append({"kind": "positional", "delta": 1.0})
     dspecs.append({"kind": "combined", "alpha": 1.0, "beta": 1.0, "delta": 1.0, "pos": None, "cat": None})
+    label_free = [d for d in dspecs if cases.dissim_labels(d) is None]
+    for i in range(ctx.scale(3, 30)):
+        a = cases.gen_continuum(rng, n_annot=rng.randint(2, 3), max_units=4, allow_empty=False, labels=["l1", "l2"], names=["left_0", "left_1", "left_2"][:3])
+        b = cases.gen_continuum(rng, n_annot=2, max_units=4, allow_empty=False, labels=["r1", "r2", "r3"], names=["right_0", "right_1"])
+        a["ann"] = {k: v for k, v in list(a["ann"].items())}
+        case = {"continua": [a, b], "dissim": rng.choice(label_free), "n_samples": rng.choice([10, 20, 40]), "np_seed": rng.randrange(2 ** 31)}
+        ctx.begin_case(case)
+        ctx.observe("mode", "two-concurrent-default-sampler-computations")
+        check_case(ctx, case)
+    # large first batches (the whole range of n_samples is quantified over): a tiny continuum keeps them affordable
+    for i in range(ctx.scale(1, 8)):
+        tiny = cases.gen_continuum(rng, n_annot=2, sizes=[2, 2], family=rng.choice(["grid", "dyadic"]), labels=cases.LABELS_SMALL)
+        n_big = rng.choice([257, 300, 400, 520])
+        case = {"continuum": tiny, "dissim": {"kind": "positional", "delta": 1.0}, "n_samples": n_big, "precision": "auto",
+                "target_N": n_big * rng.choice([0.8, 1.15, 1.6]), "sampler": rng.choice(["statistical", "shuffle_float"]),
+                "mode": "exact", "ground_truth": None, "np_seed": rng.randrange(2 ** 31), "identical": False}
+        ctx.begin_case(case)
+        ctx.observe("mode", "exact")
+        ctx.observe("n_samples", n_big)
+        check_case(ctx, case)
     for i in range(ctx.scale(40, 420)):
         if ctx.out_of_time():
             break
